@@ -180,6 +180,13 @@ Theorem c07_legacy_no_panic_refuted :
 Proof. exact Legacy.legacy_panics. Qed.
 Print Assumptions c07_legacy_no_panic_refuted.
 
+(* the patch is conservative: ValidateRevision accepts exactly what it accepted before, with the
+   same returned values, for current/proposed revisions of any shape *)
+Theorem c07_patch_conservative : forall cur rv p k x,
+  Legacy.validate_revision cur rv p k = Ok x <-> validate_revision cur rv p k = Ok x.
+Proof. exact Legacy.validate_revision_conservative. Qed.
+Print Assumptions c07_patch_conservative.
+
 (* non-vacuity: a well-formed contract, an accepted revision of each kind, a rejection *)
 Example c07_nonvacuous :
   wf ex_cur /\ inrange ex_cur
